@@ -325,6 +325,17 @@ def rule_complete_passes(ck):
                 continue
             n += 1
             o = ck.ob('C13-D9.complete', f, lp.iter, lp)
+            # the pass ends when the forecast itself raises StopIteration: iterated side by side with another iterable (zip, map,
+            # islice, takewhile) the loop may end on the OTHER one, and the forecast is never asked for the item that rewinds it
+            short = [c for c in ast.walk(lp.iter) if isinstance(c, ast.Call) and (u(c.func).split('.')[-1] in ('zip', 'zip_longest', 'islice', 'takewhile', 'map', 'iter', 'next'))
+                     and any(('forecast' in u(a_) or u(a_) == 'self') for a_ in c.args)
+                     and not (u(c.func).split('.')[-1] == 'zip' and c.args and ('forecast' in u(c.args[0]) or u(c.args[0]) == 'self')
+                              and all(isinstance(a_, ast.Call) and u(a_.func).split('.')[-1] == 'count' for a_ in c.args[1:]))]
+            if short:
+                o.fail('the forecast is iterated inside `%s`: such a loop ends as soon as the other iterable is exhausted, without the forecast '
+                       'being asked for one more item - its end-of-pass branch (cursor back to 0, n_cat, cache hand-over) never runs and the next '
+                       'pass is empty' % u(short[0])[:70])
+                continue
             bad = [x for s in lp.body for x in ast.walk(s) if isinstance(x, (ast.Break, ast.Return))
                    and not any(isinstance(p, (ast.For, ast.While)) and p is not lp for p in _loops_between(x, lp))]
             (o.fail('the loop over the forecast can be left early (%s at L%d): the cursor stays mid-way and the next pass starts there' % (
@@ -485,4 +496,39 @@ def rule_rates_view(ck):
     c11.rule_axes(ck)
 
 
-RULES = [rule_writers, rule_init, rule_next, rule_getters, rule_complete_passes, rule_consumers, rule_tolerance_shared, rule_rates_view]
+def rule_precheck(ck):
+    """D7.precheck: what makes computing the expected rates impossible (no region, no magnitude bins) is refused before the pass over
+    the catalogs starts - a refusal raised from inside the loop leaves the cursor, the recorded counts and the cache of a half-done
+    pass behind, and the retry after the caller repaired the forecast resumes mid-way"""
+    P = ck.prog
+    ck.clause('D7')
+    f = P.func(F + 'get_expected_rates')
+    cfg = f.cfg
+    loops = [x for x in all_nodes(f) if isinstance(x, ast.For) and ('self' in u(x.iter))]
+    o = ck.ob('C13-D7.precheck', f, 'region and magnitude bins are tested before the pass', loops[0] if loops else f.node)
+    if not loops:
+        o.unknown('no loop over the forecast in get_expected_rates')
+        return
+    guards = []
+    for n in all_nodes(f):
+        if isinstance(n, ast.If) and any(isinstance(s_, ast.Raise) for s_ in n.body):
+            t = u(n.test)
+            if 'self.region' in t and 'None' in t and 'magnitudes' in t:
+                guards.append(n)
+    ok = any(cfg.node_of(g_) is not None and cfg.node_of(loops[0]) is not None and cfg.dominates(cfg.node_of(g_), cfg.node_of(loops[0])) for g_ in guards)
+    (o.ok('raises before the first catalog is consumed') if ok else
+     o.fail('nothing refuses a forecast without region / magnitude bins before the loop over its catalogs: the failure then comes from the '
+            'binning of the first catalog, after __next__ has advanced the cursor and recorded that catalog'))
+
+
+def rule_filters_applied(ck):
+    """the configured filters are applied by catalog.filter / filter_spatial: every statement narrows the events on every path, and
+    neither method trusts remembered state instead of filtering (shared C04-D2 narrowing, C04-D7 paths)"""
+    from . import c04
+    ck.clause('D5 (shared C04-D2/D7: filter applies every statement on every path)')
+    c04.rule_narrowing(ck)
+    c04.rule_paths(ck)
+    c04.rule_every_path_selects(ck)
+
+
+RULES = [rule_writers, rule_init, rule_next, rule_getters, rule_complete_passes, rule_consumers, rule_tolerance_shared, rule_rates_view, rule_precheck, rule_filters_applied]
